@@ -390,10 +390,14 @@ func compileMetadata(
 			}
 		} else {
 			validatorParsed := parseType(col.Validator, logger)
-			col.Type = validatorParsed.types[0]
 			col.Order = ASC
-			if validatorParsed.reversed[0] {
-				col.Order = DESC
+			if len(validatorParsed.types) > 0 {
+				col.Type = validatorParsed.types[0]
+				if validatorParsed.reversed[0] {
+					col.Order = DESC
+				}
+			} else {
+				col.Type = NativeType{typ: TypeCustom, custom: col.Validator}
 			}
 		}
 
@@ -467,9 +471,9 @@ func compileV1Metadata(tables []TableMetadata, logger StdLogger) {
 		// determine the number of clustering columns
 		size := len(comparatorParsed.types)
 		if comparatorParsed.isComposite {
-			if len(comparatorParsed.collections) != 0 ||
+			if size > 0 && (len(comparatorParsed.collections) != 0 ||
 				(len(table.ColumnAliases) == size-1 &&
-					comparatorParsed.types[size-1].Type() == TypeVarchar) {
+					comparatorParsed.types[size-1].Type() == TypeVarchar)) {
 				size = size - 1
 			}
 		} else {
@@ -516,11 +520,15 @@ func compileV1Metadata(tables []TableMetadata, logger StdLogger) {
 			}
 			// decode the default validator
 			defaultValidatorParsed := parseType(table.DefaultValidator, logger)
+			var defaultType TypeInfo = NativeType{typ: TypeCustom, custom: table.DefaultValidator}
+			if len(defaultValidatorParsed.types) > 0 {
+				defaultType = defaultValidatorParsed.types[0]
+			}
 			column := &ColumnMetadata{
 				Keyspace: table.Keyspace,
 				Table:    table.Name,
 				Name:     alias,
-				Type:     defaultValidatorParsed.types[0],
+				Type:     defaultType,
 				Kind:     ColumnRegular,
 			}
 			table.Columns[alias] = column
